@@ -745,8 +745,11 @@ func runC10(c *Ctx) {
 		})
 		r.Check(ok, "R-GATE-KIND", "ProtocolVersionError.ErrorKind", u.Pos(f.Pos()), "constant protocol_version_mismatch", "ErrorKind() is not the constant protocol_version_mismatch")
 	}
+	// R-SEMVER / R-DIRECTION on the table of component orderings (shape-independent); the
+	// shape-specific forms below judge the function only when the table cannot be built
+	tableDone := c10VersionTable(c)
 	// R-SEMVER
-	if f := c.Fn("R-SEMVER", "(*Server).checkProtocolVersion"); f != nil {
+	if f := c.Fn("R-SEMVER", "(*Server).checkProtocolVersion"); f != nil && !tableDone {
 		Instrs(f, func(in ssa.Instruction) {
 			ret, ok := in.(*ssa.Return)
 			if !ok {
@@ -762,7 +765,7 @@ func runC10(c *Ctx) {
 		})
 	}
 	// R-DIRECTION: "client is too old" is chosen exactly under major < serverMajor ∨ (major == serverMajor ∧ minor < serverMinor)
-	if f := u.Func("(*Server).checkProtocolVersion"); f != nil {
+	if f := u.Func("(*Server).checkProtocolVersion"); f != nil && !tableDone {
 		found := false
 		Instrs(f, func(in ssa.Instruction) {
 			// the block whose computed message contains the client-too-old text
